@@ -38,5 +38,10 @@ Class(line, bad) ==
    ELSE IF c.shape = "localalias_childlocal" /\ c.kind \in {"schemas", "headers"}
            /\ bad \subseteq {"reloads_without_external_refs", "resolves_to_same_content"} THEN "local_alias_hides_external_parent"
    ELSE IF c.shape = "conflation" /\ c.entry = "file_abs_prior" /\ bad = {"resolves_to_same_content"} THEN "local_alias_hides_external_parent"
+   (* F-C16-8: a document loaded FROM MEMORY (no location of its own) whose component header / response B is a reference into an external  *)
+   (*          file and has a local alias A = {$ref: "#/components/<k>/B"}: after InternalizeRefs B is {$ref: "#/components/<k>/B"}, a          *)
+   (*          reference to itself; the external object is gone (without the alias B becomes a reference to the new component sub_b_X).       *)
+   ELSE IF c.shape = "localalias_childlocal" /\ c.entry \in {"data", "reader"} /\ c.kind \in {"headers", "responses"}
+           /\ bad \subseteq {"resolves_to_same_content", "validates_iff_original"} THEN "aliased_component_self_reference"
    ELSE "none"
 =============================================================================
